@@ -80,9 +80,9 @@ Proof.
 Qed.
 Print Assumptions C14_adjacent_concat.
 
-(* "unknown escapes are kept" (Python: '\z' is the two characters \ z) is FALSE at full strength:
-   a backslash before a raw non-ASCII character pairs with the backslash that backslashreplace
-   inserts ... *)
+(* unknown escapes are kept, as in Python ('\z' is the two characters \ z) -- for EVERY character that
+   is not escape-significant, ASCII or not.  (Before the fix of the lexer a backslash before a raw
+   non-ASCII character paired with the backslash that backslashreplace inserts: '\é' gave \xe9.) *)
 Definition escape_significant (c : N) : bool :=
   match simple_escape c with
   | Some _ => true
@@ -92,14 +92,13 @@ Definition kept_ok (c : N) : bool :=
   escape_significant c ||
   match convert [10] [92; c] with inl [b; c'] => (b =? 92) && (c' =? c) | _ => false end.
 
-Theorem C14_unknown_escape_refuted : exists c, c < 1114112 /\ kept_ok c = false /\
-  convert [10] [92; c] = inl [92; 120; 101; 57].
-Proof. exists 233. repeat split. Qed.
-
-(* ... and true for every ASCII character *)
-Theorem C14_unknown_escape_partial : forall c, c < 128 -> kept_ok c = true.
-Proof. exact (forallb_below kept_ok 128 ltac:(vm_compute; reflexivity)). Qed.
-Print Assumptions C14_unknown_escape_partial.
+Theorem C14_unknown_escape_kept : forall c, c < 1114112 -> kept_ok c = true.
+Proof.
+  intros c Hc. destruct (N.lt_ge_cases c 128) as [Hlo|Hhi].
+  - exact (forallb_below kept_ok 128 ltac:(vm_compute; reflexivity) c Hlo).
+  - unfold kept_ok. rewrite (unknown_escape_non_ascii [10] c Hhi Hc). rewrite !N.eqb_refl. apply orb_true_r.
+Qed.
+Print Assumptions C14_unknown_escape_kept.
 
 (* "the value of a string literal does not depend on the configuration" is FALSE at full strength:
    a RAW line break inside a literal is replaced by the environment's newline_sequence (documented for
